@@ -254,6 +254,8 @@ func c11Build(t c11Tmpl, sh c11Shape, sit int, val c11Val, base PointSpec) (*Pro
 			return nil, false
 		}
 		pt.Fields[sh.Key] = val.Field
+		// (the key is read first: whatever the point remembers about its last lookup is about this key)
+		pre = append(pre, rt.Assign("=", rt.Id("rb0"), rt.Call("get_key", sh.Arg())))
 		if sit == sitDroppedField {
 			pre = append(pre, rt.Call("drop_key", sh.Arg()))
 		} else {
@@ -264,7 +266,7 @@ func c11Build(t c11Tmpl, sh c11Shape, sit int, val c11Val, base PointSpec) (*Pro
 			return nil, false
 		}
 		pt.Tags[sh.Key] = val.Field.(string)
-		pre = append(pre, rt.Call("rename", rt.Id("nw2"), sh.Arg()))
+		pre = append(pre, rt.Assign("=", rt.Id("rb0"), rt.Call("get_key", sh.Arg())), rt.Call("rename", rt.Id("nw2"), sh.Arg()))
 	}
 	body := t.Build(sh.Arg)
 	if sit == sitRoundValues {
